@@ -201,8 +201,11 @@ func runMirror(events []string, props []string, seed int, args map[string]string
 			decided := ""
 			tot := w.total(after.voting.Height)
 			for target, pow := range after.voting.VoteSummary.PrecommitBlockPower {
-				if target != "" && pow >= majority(tot) {
+				if pow >= majority(tot) {
 					decided = ":voting-round-holds-a-precommit-majority"
+					if target == "" {
+						decided = ":voting-round-holds-a-nil-precommit-majority"
+					}
 				}
 			}
 			o.violate("C10", "position-after-redelivery-behind-crash-free-run:redelivered-"+kind+decided, fmt.Sprintf("after the stop inside %s, the restart and the redelivery the node is at [%s]; without the stop it is at [%s] after that message", ev, posKey(after), args["expect_after"]))
